@@ -31,6 +31,7 @@ mod stmtcases;
 mod c14;
 mod c13;
 mod tables_prec;
+mod tables_lower;
 
 fn main() {
     util::silence_panics();
